@@ -40,6 +40,8 @@ CHECKS = {
          "for every enumerated run the returned Q and T are checked for the column bound, orthonormality, the first column, a real symmetric tridiagonal T with non-negative off-diagonal equal to Q^H A Q, the three-term relation, the Krylov span, early termination with exact Ritz values at an exhausted space, and ascending Ritz pairs from lanczos_eigs"),
  "C15": ("(square operator family, size, start vector incl. invariant subspaces of dimension 1-3 and a batch, tol, entry point) x EVERY iteration cap below, at and above n: each capped run is a checked state",
          "for every enumerated run the shapes, first column, Hessenberg form with non-negative sub-diagonal, orthonormality of the required leading columns, the Arnoldi relation, zero weight beyond the Krylov dimension, exact zero padding and equality with the m = n result for m > n are checked; arnoldi_eigs must return the spectrum at m >= n and nothing spurious after a breakdown"),
+ "C17": ("operation histories: every sequence of <=2 (quick) / <=3 (thorough) events over all randomised cola routines x keys and user draws from numpy.random; Hutchinson expectation by enumerating the full Rademacher probe cube through a seam on the backend's randn",
+         "after every step of every enumerated history numpy's global generator state is bit-identical, every keyed call equals its clean-state result, and user draws equal those of the history without cola calls; the average of the Hutchinson estimate over the whole sign cube must equal the true diagonal exactly for all offsets"),
 }
 PENDING = {}
 props = [json.loads(l) for l in open(os.path.join(ROOT, "properties.jsonl"))]
